@@ -112,6 +112,9 @@ struct Case {
     y: Vec<usize>,
     weights: Option<Vec<f32>>,
     hash_seed: u64,
+    /// also fit every configuration on a column-major copy and on a transposed view of the records
+    #[serde(default)]
+    layouts: bool,
     /// every configuration is fitted, in this order, on one fresh thread
     configs: Vec<Config>,
 }
@@ -150,8 +153,9 @@ struct Lite {
     xi: Vec<u8>, // row i = alphabet[xi[i]]
     y: Vec<u8>,
     weights: u8, // 0 none, 1 alternating 1,2,1,2.., 2 all 0.5, 3 cycling 501,499,499,501
-    grid: u8,    // 0 full, 1 small
+    grid: u8,    // 0 full, 1 small, 2 / 3 weak-split (f64 / f32)
     hash_seed: u64,
+    layouts: bool,
 }
 
 fn grid(kind: u8, weights: u8) -> Vec<Config> {
@@ -207,6 +211,7 @@ fn expand(l: &Lite, with_configs: bool) -> Case {
         y: l.y.iter().map(|&k| k as usize).collect(),
         weights,
         hash_seed: l.hash_seed,
+        layouts: l.layouts,
         configs: if with_configs { grid(l.grid, l.weights) } else { Vec::new() },
     }
     .exact()
@@ -257,6 +262,8 @@ struct Stats {
     trees_with_split_and_total_decrease_below_1e_5: u64,
     distinct_class_counts: [u64; 7],
     violating_evals: u64,
+    #[serde(default)]
+    layout_comparisons: u64,
     violations_not_stored: u64,
     child_processes: u64,
     child_aborts: u64,
@@ -283,6 +290,7 @@ impl Stats {
             self.distinct_class_counts[i] += o.distinct_class_counts[i];
         }
         self.violating_evals += o.violating_evals;
+        self.layout_comparisons += o.layout_comparisons;
         self.violations_not_stored += o.violations_not_stored;
         self.child_processes += o.child_processes;
         self.child_aborts += o.child_aborts;
@@ -449,16 +457,20 @@ struct Item<'t, F, L> {
 }
 
 #[allow(clippy::too_many_arguments)]
-fn check_one<F: Float, L: Label + Default + std::fmt::Debug>(
+/// Fits one configuration on one memory layout of the records and verifies the tree. Returns a
+/// canonical description of the fitted tree (nodes in level order with exact bit patterns, and
+/// the predictions of the training rows) for the comparison between layouts.
+fn check_one<F: Float, L: Label + Default + std::fmt::Debug, D: ndarray::Data<Elem = F>>(
     case: &Case,
     ci: usize,
     cfg: &Config,
-    ds: &Dataset<F, L, ndarray::Ix1>,
-    recs: &Array2<F>,
+    layout: &str,
+    ds: &linfa::DatasetBase<ndarray::ArrayBase<D, ndarray::Ix2>, Array1<L>>,
+    recs: &ndarray::ArrayBase<D, ndarray::Ix2>,
     data: &Data<L>,
     viols: &mut Vec<RawViol>,
     st: &mut Stats,
-) {
+) -> Option<String> {
     let n = data.xs.len();
     let d = data.xs[0].len();
     let mut seen_sigs: Vec<String> = Vec::new();
@@ -467,13 +479,13 @@ fn check_one<F: Float, L: Label + Default + std::fmt::Debug>(
             return;
         }
         seen_sigs.push(sig.to_string());
-        let mut a = json!({"config_index": ci, "config": cfg});
+        let mut a = json!({"config_index": ci, "config": cfg, "layout": layout});
         if let (Some(ao), Some(extra)) = (a.as_object_mut(), at.as_object()) {
             for (k, x) in extra {
                 ao.insert(k.clone(), x.clone());
             }
         }
-        viols.push(RawViol { sig: sig.to_string(), what: format!("[config #{} {:?}] {}", ci, cfg, what), at: a });
+        viols.push(RawViol { sig: sig.to_string(), what: format!("[config #{} {:?}; records {}] {}", ci, cfg, layout, what), at: a });
     };
 
     st.evals += 1;
@@ -507,7 +519,7 @@ fn check_one<F: Float, L: Label + Default + std::fmt::Debug>(
                     ),
                     json!({"guard_max_depth": n + 1}),
                 );
-                return;
+                return None;
             }
         }
     }
@@ -515,11 +527,11 @@ fn check_one<F: Float, L: Label + Default + std::fmt::Debug>(
         Ok(Ok(t)) => t,
         Ok(Err(e)) => {
             report("fit.unexpected_error", format!("fit on a valid dataset with valid parameters returned Err({})", e), json!({}));
-            return;
+            return None;
         }
         Err(p) => {
             report("fit.panic", format!("fit on a valid dataset with valid parameters panicked: {}", p), json!({}));
-            return;
+            return None;
         }
     };
 
@@ -810,12 +822,12 @@ fn check_one<F: Float, L: Label + Default + std::fmt::Debug>(
         Ok(p) => p,
         Err(p) => {
             report("predict.panic", format!("predict on the training records panicked: {}", p), json!({}));
-            return;
+            return None;
         }
     };
     if pred.len() != n {
         report("predict.wrong_length", format!("predict returned {} labels for {} rows", pred.len(), n), json!({}));
-        return;
+        return None;
     }
     for i in 0..n {
         let obs = &pred[i];
@@ -854,6 +866,13 @@ fn check_one<F: Float, L: Label + Default + std::fmt::Debug>(
             );
         }
     }
+    let mut summary = String::new();
+    for nd in tree.iter_nodes() {
+        let (f, t, dcr) = nd.split();
+        summary.push_str(&format!("[d{} leaf={} f{} thr={:016x} dec={:016x} pred={:?}]", nd.depth(), nd.is_leaf(), f, to64(t).to_bits(), to64(dcr).to_bits(), nd.prediction()));
+    }
+    summary.push_str(&format!(" predictions={:?}", pred.iter().collect::<Vec<_>>()));
+    Some(summary)
 }
 
 fn run_typed<F: Float, L: Label + Default + std::fmt::Debug>(case: &Case, names: &[L], skip: &[usize], sink: &mut dyn FnMut(Event)) {
@@ -866,7 +885,7 @@ fn run_typed<F: Float, L: Label + Default + std::fmt::Debug>(case: &Case, names:
         Some(w) => w.iter().map(|&v| v as f64).collect(),
         None => vec![1.0; n],
     };
-    let mut ds = Dataset::new(recs.clone(), targets);
+    let mut ds = Dataset::new(recs.clone(), targets.clone());
     if let Some(wv) = &case.weights {
         ds = ds.with_weights(Array1::from(wv.clone()));
     }
@@ -887,7 +906,37 @@ fn run_typed<F: Float, L: Label + Default + std::fmt::Debug>(case: &Case, names:
             eprintln!("TRACE {} {} {} x={:?} y={:?} w={:?} cfg#{} {:?}", case.family, case.float, case.label_type, case.x, case.y, case.weights, ci, cfg);
         }
         st.distinct_class_counts[distinct.len().min(6)] += 1;
-        check_one::<F, L>(case, ci, cfg, &ds, &recs, &data, &mut viols, &mut st);
+        let standard = check_one(case, ci, cfg, "standard layout", &ds, &recs, &data, &mut viols, &mut st);
+        if case.layouts {
+            // the same logical records in two other contiguous memory layouts: every oracle again, and
+            // the fitted tree must be the very same tree
+            let mut cm: Array2<F> = Array2::zeros(ndarray::ShapeBuilder::f((n, d)));
+            cm.assign(&recs);
+            let mut ds_cm = linfa::DatasetBase::new(cm.clone(), targets.clone());
+            let fm: Array2<F> = Array2::from_shape_fn((d, n), |(j, i)| recs[(i, j)]);
+            let tv = fm.t();
+            let mut ds_tv = linfa::DatasetBase::new(tv.clone(), targets.clone());
+            if let Some(wv) = &case.weights {
+                ds_cm = ds_cm.with_weights(Array1::from(wv.clone()));
+                ds_tv = ds_tv.with_weights(Array1::from(wv.clone()));
+            }
+            let others = [
+                ("column-major owned array", check_one(case, ci, cfg, "column-major owned array", &ds_cm, &cm, &data, &mut viols, &mut st)),
+                ("transposed view of a feature-major array", check_one(case, ci, cfg, "transposed view of a feature-major array", &ds_tv, &tv, &data, &mut viols, &mut st)),
+            ];
+            for (name, other) in others {
+                st.layout_comparisons += 1;
+                if let (Some(a), Some(b)) = (&standard, &other) {
+                    if a != b && !viols.iter().any(|v| v.sig == "fit.layout_dependence") {
+                        viols.push(RawViol {
+                            sig: "fit.layout_dependence".into(),
+                            what: format!("[config #{} {:?}] the same records fitted from a {} give a different tree than from a standard-layout array: standard {} | other {}", ci, cfg, name, a, b),
+                            at: json!({"config_index": ci, "config": cfg, "layout": name}),
+                        });
+                    }
+                }
+            }
+        }
         if !viols.is_empty() {
             st.violating_evals += 1;
         }
@@ -1234,6 +1283,7 @@ struct Variant {
     weights: u8,
     grid: u8,
     hash_seed: u64,
+    layouts: bool,
 }
 
 /// all value sequences of length n over an alphabet of `a` points x all labelings up to renaming
@@ -1257,14 +1307,16 @@ fn push_family(out: &mut Vec<Lite>, family: &'static str, alphabet: &[Vec<f64>],
             if v.label == "bool" && classes > 2 {
                 continue;
             }
-            out.push(Lite { family, float: v.float, label_type: v.label, alphabet: alphabet.clone(), xi: xi.clone(), y: y.clone(), weights: v.weights, grid: v.grid, hash_seed: v.hash_seed });
+            out.push(Lite { family, float: v.float, label_type: v.label, alphabet: alphabet.clone(), xi: xi.clone(), y: y.clone(), weights: v.weights, grid: v.grid, hash_seed: v.hash_seed, layouts: v.layouts });
         }
     }
 }
 
 fn enumerate_cases(ctx: &Ctx) -> Vec<Lite> {
     let mut out: Vec<Lite> = Vec::new();
-    let v = |float, label, weights, grid, hash_seed| Variant { float, label, weights, grid, hash_seed };
+    let v = |float, label, weights, grid, hash_seed| Variant { float, label, weights, grid, hash_seed, layouts: false };
+    // the same, fitted from three memory layouts of the records
+    let vl = |float, label, weights, grid, hash_seed| Variant { float, label, weights, grid, hash_seed, layouts: true };
     let pts = |dim: usize, side: usize| -> Vec<Vec<f64>> { en::lattice_points(dim, side).iter().map(|p| p.iter().map(|&c| c as f64).collect()).collect() };
 
     // A: one feature over {0,1,2}
@@ -1324,7 +1376,10 @@ fn enumerate_cases(ctx: &Ctx) -> Vec<Lite> {
     let alpha_b = pts(2, 2);
     for n in 1..=ctx.pick(4, 5) {
         let sets = datasets(4, n, 6);
-        let mut vars = vec![v("f64", "usize", 0, 0, 0)];
+        let mut vars = vec![vl("f64", "usize", 0, if n <= 4 { 0 } else { 1 }, 0)];
+        if n == 5 {
+            vars.push(v("f64", "usize", 0, 0, 0));
+        }
         vars.push(v("f64", "usize", 1, if n <= 4 { 0 } else { 1 }, 0));
         if n <= 4 && (n <= 3 || ctx.thorough()) {
             vars.push(v("f32", "string", 2, 0, 0));
@@ -1332,13 +1387,16 @@ fn enumerate_cases(ctx: &Ctx) -> Vec<Lite> {
         if n <= 4 {
             vars.push(v("f64", "usize", 3, 2, 0));
         }
+        if n <= 3 {
+            vars.push(vl("f32", "string", 1, 1, 0));
+        }
         push_family(&mut out, "2f_lattice2x2", &alpha_b, &sets, &vars);
     }
     // D: two features over {0,1,2}^2 (rows of other subtrees lie between the rows of a node)
     let alpha_d = pts(2, 3);
     for n in 1..=ctx.pick(3, 4) {
         let sets = datasets(9, n, 6);
-        let mut vars = vec![v("f64", "usize", 0, if n <= 3 { 0 } else { 1 }, 0)];
+        let mut vars = if n <= 3 { vec![v("f64", "usize", 0, 0, 0), vl("f64", "usize", 1, 1, 0)] } else { vec![vl("f64", "usize", 0, 1, 0)] };
         if n <= 3 {
             vars.push(v("f32", "bool", 0, 0, 0));
         }
@@ -1346,6 +1404,16 @@ fn enumerate_cases(ctx: &Ctx) -> Vec<Lite> {
             vars.push(v("f64", "usize", 1, 0, 0));
         }
         push_family(&mut out, "2f_lattice3x3", &alpha_d, &sets, &vars);
+    }
+    // F: three features over {0,1}^3, always fitted from the three memory layouts
+    let alpha_f = pts(3, 2);
+    for n in 1..=ctx.pick(3, 4) {
+        let sets = datasets(8, n, 6);
+        let mut vars = vec![vl("f64", "usize", 0, 1, 0)];
+        if n <= 3 {
+            vars.push(vl("f32", "bool", 1, 1, 0));
+        }
+        push_family(&mut out, "3f_lattice2x2x2", &alpha_f, &sets, &vars);
     }
     // C: adjacency family: four consecutive floats whose spacing is above the subject's 1e-5
     // "equal values" margin, so that the midpoint of two neighbours rounds onto one of them
@@ -1393,7 +1461,7 @@ fn main() {
         "case = (dataset, float type, label type, sample weights, hash seed) fitted under every configuration of a grid; \
          datasets: ALL value sequences of n rows over the family's alphabet x ALL labelings up to renaming of the classes (restricted growth strings, <= 6 classes; \
          includes duplicates with conflicting labels, constant features, single-class sets): 1 feature over {0,1,2} (n <= 5 quick / 6 thorough; quick adds n = 6 with >= 5 classes on the small grid), 1 feature over {0,1,2,3} (n <= 4 / 5), \
-         2 features over {0,1}^2 (n <= 4 / 5), 2 features over {0,1,2}^2 (n <= 3 / 4), adjacency families = 4 consecutive floats at 2^24 and 256 (f32), 2^53 and 2^40 (f64) (n <= 3 / 4, <= 3 classes; fit can overflow the stack there), \
+         2 features over {0,1}^2 (n <= 4 / 5), 2 features over {0,1,2}^2 (n <= 3 / 4), 3 features over {0,1}^3 (n <= 3 / 4, small grid); memory layouts: the multi-feature families are additionally fitted (all of 3f; 2x2: unweighted full grid n <= 4 + a f32 small-grid variant; 3x3: a weighted small-grid variant) from a column-major owned array and from a transposed view of a feature-major array - every oracle again on each layout, and the tree (nodes with bit-exact thresholds / decreases, predictions of the training rows) must equal the standard-layout tree (fit.layout_dependence), adjacency families = 4 consecutive floats at 2^24 and 256 (f32), 2^53 and 2^40 (f64) (n <= 3 / 4, <= 3 classes; fit can overflow the stack there), \
          near-equal family {0, 8e-6, 1.6e-5, 2.6e-5, 1} (n <= 4 / 5); label types usize / bool / String; weights none / 1,2,1,2.. / all 0.5 / cycling 501,499,499,501 (nearly balanced nodes, run on the weak-split grid = 2 x {None,1,2} x {1,2,2.5} x min_weight_leaf {1,600,1001} x min_impurity_decrease {1e-9 (f64) or 2e-7 (f32), 1e-5, 0.1} (162) on 1 feature over {0,1,2} with n <= 4 / 5 and {0,1}^2 with n <= 4); \
          full grid = {gini, entropy} x max_depth {None,0,1,2} x min_weight_split {1,2,2.5,3,3.5} (non-integer values: a node reached by floor(v) rows must not be split) x min_weight_leaf {1,2} ({0.5,1} with weights 0.5) x min_impurity_decrease {1e-5,0.1,0.3} (240), \
          small grid (adjacency / near-equal) = 2 x {None,1,2} x {1,2,2.5} x {1,2} x {1e-5,0.1} (72). \
@@ -1435,7 +1503,7 @@ fn main() {
         totals.lock().unwrap().merge(&st);
         *fam_nontrivial.lock().unwrap().entry(l.family).or_default() += st.nontrivial;
         done.fetch_add(1, std::sync::atomic::Ordering::Relaxed);
-        ctx.sample(|| json!({"family": case.family, "float": case.float, "label_type": case.label_type, "x": case.x, "y": case.y, "weights": case.weights, "hash_seed": case.hash_seed, "grid": match l.grid { 0 => "full (240 configurations)", 1 => "small (72 configurations)", _ => "weak-split (162 configurations, min_impurity_decrease down to 1e-9 / 2e-7)" }}));
+        ctx.sample(|| json!({"family": case.family, "float": case.float, "label_type": case.label_type, "x": case.x, "y": case.y, "weights": case.weights, "hash_seed": case.hash_seed, "layouts": if case.layouts { "standard + column-major + transposed view" } else { "standard" }, "grid": match l.grid { 0 => "full (240 configurations)", 1 => "small (72 configurations)", _ => "weak-split (162 configurations, min_impurity_decrease down to 1e-9 / 2e-7)" }}));
     });
     let t = totals.lock().unwrap().clone();
     let done = done.load(std::sync::atomic::Ordering::Relaxed);
@@ -1457,6 +1525,7 @@ fn main() {
     ctx.extra("split_nodes_with_actual_decrease_below_1e-5", json!(t.split_nodes_with_decrease_below_1e_5));
     ctx.extra("trees_with_a_split_whose_mean_decreases_sum_below_1e-5", json!(t.trees_with_split_and_total_decrease_below_1e_5));
     ctx.extra("evaluations_with_a_violation", json!(t.violating_evals));
+    ctx.extra("trees_compared_with_the_standard_layout_tree", json!(t.layout_comparisons));
     ctx.extra("violations_counted_but_not_stored_beyond_2_per_signature_and_case", json!(t.violations_not_stored));
     ctx.extra("worker_processes_started", json!(t.child_processes));
     ctx.extra("worker_processes_killed_by_stack_overflow", json!(t.child_aborts));
